@@ -1910,7 +1910,7 @@ def run(ctx):
                 for qc in quotient_classes(c['tree']):
                     res.count('scaled.limit/scale=' + str(qc))
                 if any(True for _ in scaled_leaves(c['tree'])):
-                    res.count(f'{k}.scaled-limits=' + ('grid-aligned' if ans.get('aligned') else 'not-aligned(description only)'))
+                    res.count(f'{k}.scaled-limits=' + ('grid-aligned' if ans.get('aligned') else 'not-aligned(behaviour judged)' if ans.get('snappable') else 'no-finite-grid-value(description only)'))
                 for p in impl['probes']:
                     res.count('probe.original=' + ('ok' if isinstance(p['o'], dict) and 'ok' in p['o'] else 'bad' if p['o'] == 'bad' else 'other'))
                 if c['tree']['t'] in gen.CONTAINER_KINDS or json.dumps(impl['datainfo']).count('[') > 3:
@@ -1935,7 +1935,7 @@ def run(ctx):
                 res.traces += 1
                 res.count('command-rebuild.shape=' + ('A' if c['arg'] is not None else '-') + ('R' if c['res'] is not None else '-'))
                 res.count('command-rebuild.built=' + str(impl['rebuild']['built']).lower() + ',copy=' + str(impl['copy']['built']).lower())
-                res.count('command-rebuild.limits=' + ('grid-aligned' if ans.get('aligned') else 'not-aligned(description only)'))
+                res.count('command-rebuild.limits=' + ('grid-aligned' if ans.get('aligned') else 'not-aligned(behaviour judged)' if ans.get('snappable') else 'no-finite-grid-value(description only)'))
                 res.nontriv(c)
             elif k == 'getcmd':
                 res.count('get.command=' + ('command' if isinstance(impl, dict) and 'arg' in impl else 'bad' if impl == 'bad' else 'other'))
